@@ -58,7 +58,7 @@ def run_case(case):
     from bioscrape.types import Model
     from bioscrape.simulator import ModelCSimInterface, py_simulate_model
     C = Counter()
-    viol = []
+    viol = util.ViolList()
     S, Sd = ref.stoich(case)
     nontrivial = False
     for r, s_, sd_ in zip(case["reactions"], S, Sd):
